@@ -231,6 +231,13 @@ fn specials_plain() -> Vec<(String, Vec<u8>)> {
             vec![(5, dict(vec![("Type", name("Font")), ("Subtype", name("CIDFontType2")), ("BaseFont", name("X")), ("CIDSystemInfo", dict(vec![("Registry", st("A")), ("Ordering", st("I")), ("Supplement", Obj::Int(0))])),
                 ("FontDescriptor", rf(7)), ("W", Obj::Arr(w))])), (6, rf(6)), (7, dict(vec![("Type", name("FontDescriptor")), ("FontName", name("X")), ("Flags", Obj::Int(4)), ("FontBBox", ints(&[0, 0, 1, 1])), ("ItalicAngle", Obj::Int(0)), ("Ascent", Obj::Int(1)), ("Descent", Obj::Int(0)), ("CapHeight", Obj::Int(1)), ("StemV", Obj::Int(1))]))], &mut out);
     }
+    // cycles that never pass through a typed load of an indirect object: the array object holds a direct font dictionary whose
+    // /DescendantFonts is that array again; the same through a direct dictionary inside a dictionary
+    with_font("type0-descendants-array-object-holds-direct-font-pointing-back", dict(vec![("Type", name("Font")), ("Subtype", name("Type0")), ("BaseFont", name("A")), ("Encoding", name("Identity-H")), ("DescendantFonts", rf(7))]),
+        vec![(7, arr(vec![dict(vec![("Type", name("Font")), ("Subtype", name("Type0")), ("BaseFont", name("B")), ("Encoding", name("Identity-H")), ("DescendantFonts", rf(7))])]))], &mut out);
+    with_font("type0-descendants-direct-font-whose-descendants-are-the-outer-array", dict(vec![("Type", name("Font")), ("Subtype", name("Type0")), ("BaseFont", name("A")), ("Encoding", name("Identity-H")),
+        ("DescendantFonts", arr(vec![dict(vec![("Type", name("Font")), ("Subtype", name("Type0")), ("BaseFont", name("B")), ("Encoding", name("Identity-H")), ("DescendantFonts", rf(7))])]))]),
+        vec![(7, arr(vec![dict(vec![("Type", name("Font")), ("Subtype", name("Type0")), ("BaseFont", name("C")), ("Encoding", name("Identity-H")), ("DescendantFonts", rf(7))])]))], &mut out);
     with_font("type0-descendant-self", dict(vec![("Type", name("Font")), ("Subtype", name("Type0")), ("BaseFont", name("X")), ("Encoding", name("Identity-H")), ("DescendantFonts", arr(vec![rf(4)]))]), vec![], &mut out);
     with_font("type0-no-descendants", dict(vec![("Type", name("Font")), ("Subtype", name("Type0")), ("BaseFont", name("X")), ("Encoding", name("Identity-H")), ("DescendantFonts", arr(vec![]))]), vec![], &mut out);
     for cmap in [&b"1 beginbfrange\n<0000> <FFFF> <0041>\nendbfrange"[..], b"1 beginbfrange\n<FFFF> <0000> <0041>\nendbfrange", b"1 beginbfrange\n<0000> <FFFF> [<0041>]\nendbfrange", b"1 beginbfchar\n<> <>\nendbfchar", b"1 beginbfchar\n<00010203040506> <D800>\nendbfchar",
@@ -279,7 +286,7 @@ fn specials_plain() -> Vec<(String, Vec<u8>)> {
 }
 
 /// Case table: [single-ref re-pointings] ++ [single boundary numbers] ++ [specials] ++ seeded pairs.
-pub struct Table { refs: Vec<(usize, richdoc::Path)>, nums: Vec<(usize, richdoc::Path)>, targets: Vec<u32>, specials: Vec<(String, Vec<u8>)>, arrays: Vec<(usize, richdoc::Path)>, pub n_ref: u64, pub n_num: u64, pub n_spec: u64, pub n_arr: u64 }
+pub struct Table { refs: Vec<(usize, richdoc::Path)>, nums: Vec<(usize, richdoc::Path)>, targets: Vec<u32>, specials: Vec<(String, Vec<u8>)>, arrays: Vec<(usize, richdoc::Path)>, pub n_ref: u64, pub n_num: u64, pub n_spec: u64, pub n_arr: u64, pub n_wrap: u64 }
 pub fn table() -> Table {
     let (refs, nums) = sites();
     let mut targets: Vec<u32> = richdoc::objects().iter().map(|(n, _)| *n).collect();
@@ -287,10 +294,11 @@ pub fn table() -> Table {
     let specials = specials();
     let arrays = array_sites();
     let (n_ref, n_num, n_spec, n_arr) = (refs.len() as u64 * targets.len() as u64, nums.len() as u64 * 14, specials.len() as u64 * 4, arrays.len() as u64 * 5);
-    Table { refs, nums, targets, specials, arrays, n_ref, n_num, n_spec, n_arr }
+    let n_wrap = refs.len() as u64 * 2;
+    Table { refs, nums, targets, specials, arrays, n_ref, n_num, n_spec, n_arr, n_wrap }
 }
 impl Table {
-    pub fn enumerated(&self) -> u64 { self.n_ref + self.n_num + self.n_spec + self.n_arr }
+    pub fn enumerated(&self) -> u64 { self.n_ref + self.n_num + self.n_spec + self.n_arr + self.n_wrap }
     pub fn case(&self, seed: u64, idx: u64, all_combos: bool) -> Case {
         // idx -> (base case, layout/cfg combination)
         let e = self.enumerated();
@@ -311,7 +319,21 @@ impl Table {
             let lab = format!("num:obj{}.{}={}", objs[*oi].0, richdoc::path_label(&objs[*oi].1, p), String::from_utf8_lossy(&mkpdf::obj_bytes(&v)));
             *richdoc::node_mut(&mut objs[*oi].1, p) = v;
             Case { bytes: richdoc::write(&objs, layout, b""), password: vec![], cfg, labels: lab, deep: false }
-        } else if base >= self.n_ref + self.n_num + self.n_spec && base < e {
+        } else if base >= self.n_ref + self.n_num + self.n_spec + self.n_arr && base < e {
+            // cycles that pass through no typed load of an indirect object: the reference field is pointed at a new object that
+            // holds a DIRECT copy of the referring object (in an array, or as the dictionary itself), whose same field points
+            // at the new object again
+            let b = base - self.n_ref - self.n_num - self.n_spec - self.n_arr;
+            let (oi, p) = &self.refs[(b / 2) as usize];
+            let as_array = b % 2 == 0;
+            let lab = format!("wrap:obj{}.{}:{}", objs[*oi].0, richdoc::path_label(&objs[*oi].1, p), if as_array { "array-holding-direct-copy" } else { "direct-copy" });
+            let new_nr = 9000u32;
+            *richdoc::node_mut(&mut objs[*oi].1, p) = Obj::Ref(new_nr, 0);
+            let mut copy = objs[*oi].1.clone();
+            if let Obj::Stream(d, _) = copy { copy = Obj::Dict(d); }
+            objs.push((new_nr, if as_array { Obj::Arr(vec![copy]) } else { copy }));
+            Case { bytes: richdoc::write(&objs, layout, b""), password: vec![], cfg, labels: lab, deep: false }
+        } else if base >= self.n_ref + self.n_num + self.n_spec && base < self.n_ref + self.n_num + self.n_spec + self.n_arr {
             // every array-valued field with an unexpected number of elements
             let b = base - self.n_ref - self.n_num - self.n_spec;
             let (oi, p) = &self.arrays[(b / 5) as usize];
@@ -353,6 +375,7 @@ pub fn run(run: &Run) {
     run.add("enumerated_boundary_numbers", t.n_num);
     run.add("special_documents_x4cfg", t.n_spec);
     run.add("array_length_edits", t.n_arr);
+    run.add("wrap_cycles", t.n_wrap);
     run.exhaustive("single reference re-pointing x all targets; single numeric field x 14 boundary values; special documents x 4 configurations", true);
     let seed = run.seed;
     crate::sup::run_cases(run, "C14", n, 50, &|idx| {
